@@ -113,6 +113,41 @@ def h_dense(I, job):
     I.reach('end')
 
 
+def h_dense_info(I, job):
+    """two dense nodes with DenseInfo: versions, delta-coded timestamps / changesets / uids / user string ids, visible flags; date_granularity per job"""
+    dg = job['date_gran']
+    ver = [I.named('ver%d' % k, 21) for k in range(2)]; zts = [I.named('zts%d' % k, 28) for k in range(2)]; zcs = [I.named('zcs%d' % k, 28) for k in range(2)]
+    zuid = [I.named('zuid%d' % k, 28) for k in range(2)]; vis1 = I.named('vis1', 1)
+    pk = lambda zs, w=28: sum((sym_varint(I.term(z, w), w // 7) for z in zs), [])
+    info = f_bytes(1, pk(ver, 21)) + f_bytes(2, pk(zts)) + f_bytes(3, pk(zcs)) + f_bytes(4, pk(zuid)) + f_bytes(5, varint(zigzag(1)) + varint(zigzag(0)))
+    if job['visible']: info += f_bytes(6, [1, z3.ZeroExt(7, I.term(vis1, 1))])
+    dense = f_bytes(1, varint(zigzag(10)) + varint(zigzag(1))) + f_bytes(5, info) + f_bytes(8, varint(zigzag(5)) * 2) + f_bytes(9, varint(zigzag(7)) * 2)
+    st = f_bytes(1, b'') + f_bytes(1, b'usr')
+    msg = f_bytes(1, st) + (f_varint(18, dg) if dg != 1000 else []) + f_bytes(2, f_bytes(2, dense))
+    ts = [unzigzag_term(I.term(z, 28)) for z in zts]; cs = [unzigzag_term(I.term(z, 28)) for z in zcs]; ui = [unzigzag_term(I.term(z, 28)) for z in zuid]
+    I.assume(z3.And(cs[0] >= 0, cs[0] + cs[1] >= 0, ui[0] >= 0, ui[0] + ui[1] >= 0, ts[0] >= 0, ts[0] + ts[1] >= 0))        # the value domain of C01/C02: non-negative changeset ids, uids, timestamps
+    buf = put(I, msg); cap = 256; out = I.new_obj(cap, 'out', 'heap'); ol = I.new_obj(4, 'ol', 'heap')
+    rc = I.concretize(I.call('@verif_primitive_block', [buf, len(msg), 1, out, cap, ol]), 'rc'); I.observe('rc', rc)
+    if rc != 0: raise Finding('rejects-valid', 'spec-conformant PrimitiveBlock with DenseInfo rejected (rc=%d)' % rc)
+    n = I.concretize(I.load(ol, i32), 'dumplen'); I.observe('dumplen', n)
+    per = 64 + 3 + 16 + 8
+    if n != 2 * per: raise Finding('object-shape', 'dump has %d bytes, expected two nodes with a 3-byte user name (%d)' % (n, 2 * per))
+    st_, sc, su = z3.BitVecVal(0, 64), z3.BitVecVal(0, 64), z3.BitVecVal(0, 64)
+    for k in range(2):
+        st_, sc, su = st_ + ts[k], sc + cs[k], su + ui[k]
+        W = lambda j: I.term(I.load(out + per * k + 8 * j if j < 8 else out + per * k + 3 + 8 * j, i64), 64)
+        I.obligation(W(1) == (10 if k == 0 else 11), 'delta-id', 'dense node %d: id' % k)
+        I.obligation(W(2) == z3.ZeroExt(43, I.term(ver[k], 21)), 'version', 'dense node %d: version differs' % k)
+        I.obligation(W(4) == z3.ZeroExt(32, z3.Extract(31, 0, (st_ * dg) / 1000)), 'timestamp', 'dense node %d: timestamp != (running sum of deltas) * date_granularity / 1000' % k)
+        I.obligation(W(5) == sc, 'changeset', 'dense node %d: changeset is not the running sum of deltas' % k)
+        I.obligation(W(6) == su, 'uid', 'dense node %d: uid is not the running sum of deltas' % k)
+        I.obligation(W(7) == 3, 'user', 'dense node %d: user string' % k)
+        visible = z3.BoolVal(True) if (k == 0 or not job['visible']) else I.term(vis1, 1) == 1
+        I.obligation((W(3) == 1) == visible, 'visible', 'dense node %d: visible flag' % k)
+        I.obligation(z3.If(visible, W(8) == (7 * (k + 1)), W(8) == 0x7fffffff), 'coordinate', 'dense node %d: longitude (undefined iff not visible)' % k)
+    I.reach('end')
+
+
 def h_node_info(I, job):
     """PrimitiveBlock with one plain Node carrying Info (version, timestamp, changeset, uid, user_sid, optional visible) and one tag"""
     dg = job['date_gran']
@@ -168,5 +203,8 @@ def harnesses(tier):
         Harness('pbf_node_info', 'decode', h_node_info, jobs=[dict(date_gran=d, visible=v, info=i) for (d, v, i) in ((1000, None, True), (1, 1, True), (60000, 0, True), (1000, None, False))],
                 desc='plain Node with Info: version/changeset/uid copied, timestamp = raw*date_granularity/1000, visible default true, user and tag from the string table; Node without Info gets default metadata',
                 bounds='1 node; all numeric fields 28-bit symbolic; date_granularity in {1, 1000, 60000}', testgen=gen28(['version', 'timestamp', 'changeset', 'uid', 'zid', 'zlat', 'zlon'])),
+        Harness('pbf_dense_info', 'decode', h_dense_info, jobs=[dict(date_gran=d, visible=v) for (d, v) in ((1000, 0), (1, 1), (37, 1), (60000, 0))],
+                desc='two dense nodes with DenseInfo: versions copied, timestamps / changesets / uids are running sums of symbolic zig-zag deltas, timestamp = sum * date_granularity / 1000 (converted once, not per delta), visible flags, user from the string table, invisible node has no location',
+                bounds='2 nodes; deltas 28-bit symbolic; date_granularity in {1, 37, 1000, 60000}', testgen=lambda rnd: [dict(t, ver0=rnd.randint(0, 9), ver1=rnd.randint(0, 9), vis1=rnd.getrandbits(1), _job=rnd.randint(0, 3)) for t in gen28(['zts0', 'zts1', 'zcs0', 'zcs1', 'zuid0', 'zuid1'])(rnd)]),
     ]
     return hs
